@@ -269,6 +269,8 @@ func srvCorpus() []srvScenario {
 		mk("flag-08-on-method", "requp 1 Unary 8 0", "req 2 Unary 0 ok", "eof")
 		mk("flag-40-noresponse", "requp 1 Unary 64 0", "req 2 Unary 0 ok", "eof")
 		mk("flag-10-streaming-unknown", "requp 1 Unary 16 0", "requp 2 Unary 24 0", "requp 3 Nope 200 0", "req 4 Unary 0 ok", "eof")
+		// a heartbeat is answered before anything else is looked at, whatever other bits its upgrade byte carries
+		mk("heartbeat-with-a-stream-phase", "requp 1 Unary 40 0", "requp 2 Unary 232 0", "requp 3 Unary 48 0", "requp 4 Unary 56 0", "requp 5 Nope 40 0", "requp 6 Ctx 168 0", "req 7 Unary 0 ok", "ping 8", "eof")
 		mk("junk-between", "req 1 Unary 0 ok", "junk 0", "junk 1", "req 2 Unary 0 ok", "junk 2", "ping 3", "eof")
 		mk("burst-eof-8", "burst 1 8")
 		mk("burst-eof-40", "req 100 Unary 0 ok", "burst 1 40")
